@@ -5,6 +5,12 @@ PROPS = {
  "C01": ("exploration", "Per generated grammar: an LR(1) certificate (closure / transition / reduction conditions checked on every state, item and cell of the live automaton) gives completeness for all inputs of that grammar; soundness and completeness are additionally observed per input (valid derivation of exactly the input; accepted <=> Earley member), including every string up to length 4/5 for small alphabets. Grammars are sampled, never 'all grammars'.",
          "Trusted: harness FIRST/nullable, Earley recogniser, derivation validator. Completeness only asserted for conflict-free, precedence-free grammars.",
          "runtime monitoring: invariant check (LR(1) certificate) on the live automaton + reference-model monitor (Earley) over generated inputs", "DESIGN.md §4 C01"),
+ "C03": ("exploration", "Every (state, token) cell of every generated table is re-derived from the closed item sets, the graph edges and the abstract grammar's precedence declarations and compared with action(); the reported conflict lists are compared with the expected default-rule resolutions; CTParserBuilder::build must succeed iff the counts equal %expect/%expect-rr. Exhaustive over cells per generated grammar; grammars are sampled.",
+         "Trusted: the harness's precedence model (levels = declaration order, production precedence = %prec else last token) and candidate extraction from item sets. Order of applying the two default rules in shift+multi-reduce cells is accepted either way.",
+         "runtime monitoring: reference-model monitor re-deriving every table cell and the conflict lists; real compile-time builds for the %expect gate", "DESIGN.md §4 C03"),
+ "C16": ("exploration", "Every state x token x rule of every generated table: state_actions/state_shifts/core_reduces/reduce_only_state/goto vs action() and the graph's edges, reachability of all states, and every closed state vs a reference LR(1) closure of its core. Exhaustive over cells per generated grammar; grammars are sampled.",
+         "Trusted: harness FIRST/nullable/closure.",
+         "runtime monitoring: invariant checks on the live state graph and table at the quiescent point after construction", "DESIGN.md §4 C16"),
  "C19": ("exploration", "Held on every execution observed: the complete space of short texts (all strings up to length 4/6 over a hostile 6-symbol alphabet, every chunking, offset and span) plus random longer texts, each compared with a naive line model. Exhaustive on the bounded space, sampled beyond it.",
          "Trusted: the 40-line naive line model; two documented ambiguities (CR LF column, which line a span ending at a line start extends to) are accepted both ways.",
          "runtime monitoring: reference-model monitor (naive line model) over exhaustive small texts + random texts", "DESIGN.md §4 C19"),
